@@ -155,6 +155,11 @@ func NewRoutingMatcherBuilderFromProgram(log *logrus.Logger, program *routing.No
 	if err = program.Lower(log, b.registerProgramParsers, b.addFallback); err != nil {
 		return nil, err
 	}
+	if len(b.rules) > consts.MaxMatchSetLen {
+		// routing_map holds MaxMatchSetLen match sets: reject the program here, before the
+		// userspace matcher is built or any kernel map is touched.
+		return nil, fmt.Errorf("too many routing rules: %v match sets exceed the supported maximum %v", len(b.rules), consts.MaxMatchSetLen)
+	}
 	return b, nil
 }
 
